@@ -33,7 +33,7 @@ ASSUMPTIONS = [
     'fault injection (c) targets lines the reference layout marks as selected and unmuted',
 ]
 SHARD_MIN = 20
-BUDGET = {'quick': 640, 'thorough': 20000}
+BUDGET = {'quick': 640, 'thorough': 40000}
 LEVEL_TEXT = ('Exploration / fuzzing with a process-level oracle: termination and fail-closed behaviour are claims about '
               'all inputs, observed only from outside the process (exit status, wall clock, output file); generated '
               'corruptions keep the inputs near the accepting paths where such failures hide.')
